@@ -208,9 +208,26 @@ class Run:
     def _execute(self, ctx, case):
         sc = self.sc
         net = busnet.Net()
+        churn = sc.idx % 3 == 0
+        if churn:
+            # the population of the bus changes around the scenario: a client that attached first leaves again, and a
+            # late-comer attaches, while exporter and callers stay
+            early = net.real_client()
+            busnet.pump(net)
         exporter = net.real_client(unix=sc.idx % 2 == 0)
         callers = [net.real_client(unix=(sc.idx + i) % 3 == 0) for i in range(sc.ncallers)]
         busnet.pump(net)
+        if churn:
+            early.disconnect()
+            busnet.pump(net)
+            late = net.real_client()
+            busnet.pump(net)
+            ctx.count('scenarios_with_client_churn')
+            names_ = [c_.conn.busName for c_ in [exporter, late] + callers if c_.conn_result and c_.conn_result[0][0] == 'ok']
+            if len(set(names_)) != len(names_):
+                ctx.report('unique-name-reused', 'two attached clients were given the same unique name: %r' % names_,
+                           {'scenario': sc.describe()}, case)
+                return False
         w = {'scenario': sc.describe(), 'choices': self.chooser.taken}
         for c in [exporter] + callers:
             if not c.conn_result or c.conn_result[0][0] != 'ok':
